@@ -410,4 +410,191 @@ theorem fine_writes_under_mutex (T : Table) (hT : TimerOk T) (fls : List FLabel)
       | failed => simp only [Option.some.injEq, Prod.mk.injEq] at hs; obtain ⟨rfl, _⟩ := hs; simp at hch
       | gone => cases hs
 
+/-! ### the oracle clause `lone-esc` is a theorem of the LTS -/
+
+/-- where the main goroutine can be while nothing follows the ESC: after `anywhere` armed the timer
+    (`Unlock` still to come), in front of the `select`, blocked in the read -/
+def quietMain : MPc → Bool
+  | .stepped false | .atSelect | .inRead => true
+  | _ => false
+
+/-- callback `k` has not given up, and once it is past its `emit` the report is in the output -/
+def reportsOk (f : FSys) (k g : Nat) (o : List Seq) : Prop :=
+  ∃ pc, f.cbs[k]? = some (g, pc) ∧ pc ≠ .failed ∧
+    ((pc = .emitted ∨ pc = .stateSet ∨ pc = .stSet) → Seq.c0 0x1B ∈ o) ∧
+    (pc = .gone → Seq.c0 0x1B ∈ o)
+
+theorem set_getElem?_ne {α : Type} (l : List α) (i k : Nat) (a : α) (h : i ≠ k) : (l.set i a)[k]? = l[k]? := by
+  simp [h]
+
+/-- **A lone ESC followed by silence is reported, in every interleaving.**  Take any state in which
+    callback `k` carries the current generation and has not yet made its check (it is the callback of
+    the ESC parsed last), the main goroutine is where it can be while nothing follows (in front of its
+    `Unlock`, at the `select`, blocked in the read), no `Close()` has been issued and the channel is
+    open.  Then along **every** schedule without a read return and without `Close()` — any statements
+    of this and of any other callback, further expiries, the main goroutine moving on into the read —
+    the generation does not move, callback `k` never gives up at its check, and as soon as it is past
+    its `emit` the output of the schedule contains `C0 1B`.  (Any table.)  This is the clause
+    `FAIL[lone-esc]` of the forced-schedule oracle. -/
+theorem fine_lone_esc_reported (T : Table) (ls : List FLabel) :
+    ∀ (f : FSys) (k g : Nat) (pc : CbPc) (f' : FSys) (o : List Seq),
+    f.cbs[k]? = some (g, pc) → (pc = .started ∨ pc = .locked) → g = f.escGen →
+    quietMain f.mpc = true → f.closeReq = false → f.chanClosed = false →
+    (∀ l ∈ ls, l ≠ .closeSig ∧ ∀ i, l ≠ .readRet i) →
+    FSys.run T f ls = some (f', o) →
+    f'.escGen = f.escGen ∧ quietMain f'.mpc = true ∧ reportsOk f' k g o := by
+  -- generalised: callback k anywhere on its passing path, with the items emitted so far in `acc`
+  suffices hgen : ∀ (ls : List FLabel) (f : FSys) (k g : Nat) (acc : List Seq) (f' : FSys) (o : List Seq),
+      reportsOk f k g acc → g = f.escGen → quietMain f.mpc = true → f.closeReq = false → f.chanClosed = false →
+      (∀ l ∈ ls, l ≠ .closeSig ∧ ∀ i, l ≠ .readRet i) →
+      FSys.run T f ls = some (f', o) →
+      f'.escGen = f.escGen ∧ quietMain f'.mpc = true ∧ reportsOk f' k g (acc ++ o) by
+    intro f k g pc f' o hk hpc hg hq hc hch hl hr
+    have := hgen ls f k g [] f' o ⟨pc, hk, by rcases hpc with rfl | rfl <;> simp,
+      by rcases hpc with rfl | rfl <;> simp, by rcases hpc with rfl | rfl <;> simp⟩ hg hq hc hch hl hr
+    simpa using this
+  intro ls
+  induction ls with
+  | nil =>
+    intro f k g acc f' o hrep hg hq hc hch _ hr
+    simp only [FSys.run, Option.some.injEq, Prod.mk.injEq] at hr
+    obtain ⟨rfl, rfl⟩ := hr
+    exact ⟨rfl, hq, by simpa using hrep⟩
+  | cons l ls ih =>
+    intro f k g acc f' o hrep hg hq hc hch hl hr
+    simp only [FSys.run] at hr
+    cases h1 : FSys.step T f l with
+    | none => rw [h1] at hr; cases hr
+    | some a =>
+      obtain ⟨f1, o1⟩ := a
+      rw [h1] at hr; simp only at hr
+      cases h2 : FSys.run T f1 ls with
+      | none => rw [h2] at hr; cases hr
+      | some b =>
+        obtain ⟨f2, o2⟩ := b
+        rw [h2] at hr; simp only [Option.some.injEq, Prod.mk.injEq] at hr
+        obtain ⟨rfl, rfl⟩ := hr
+        have hl' : ∀ l ∈ ls, l ≠ .closeSig ∧ ∀ i, l ≠ .readRet i := fun l hm => hl l (List.mem_cons_of_mem _ hm)
+        have hl0 := hl l (List.mem_cons_self)
+        -- one step keeps the invariant
+        have hstep : f1.escGen = f.escGen ∧ quietMain f1.mpc = true ∧ f1.closeReq = false ∧ f1.chanClosed = false ∧
+            reportsOk f1 k g (acc ++ o1) := by
+          obtain ⟨pc, hk, hnf, hem, hgo⟩ := hrep
+          cases l with
+          | closeSig => exact absurd rfl hl0.1
+          | readRet i => exact absurd rfl (hl0.2 i)
+          | expire =>
+            simp only [FSys.step] at h1
+            split at h1
+            · simp only [Option.some.injEq, Prod.mk.injEq] at h1; obtain ⟨rfl, rfl⟩ := h1
+              refine ⟨rfl, hq, hc, hch, pc, ?_, hnf, by simpa using hem, by simpa using hgo⟩
+              have hlt : k < f.cbs.length := by
+                rcases Nat.lt_or_ge k f.cbs.length with h' | h'
+                · exact h'
+                · rw [List.getElem?_eq_none h'] at hk; cases hk
+              simp only [List.getElem?_append_left hlt]; exact hk
+            · cases h1
+          | main =>
+            simp only [FSys.step, mainStep] at h1
+            cases hpcm : f.mpc with
+            | atSelect =>
+              rw [hpcm] at h1; simp only [hc] at h1
+              simp only [Bool.false_eq_true, if_false, Option.some.injEq, Prod.mk.injEq] at h1; obtain ⟨rfl, rfl⟩ := h1
+              exact ⟨rfl, rfl, by first | exact hc | rfl, hch, pc, hk, hnf, by simpa using hem, by simpa using hgo⟩
+            | stepped b =>
+              rw [hpcm] at h1 hq
+              cases b with
+              | true => simp [quietMain] at hq
+              | false =>
+                simp only [Bool.false_eq_true, if_false, Option.some.injEq, Prod.mk.injEq] at h1; obtain ⟨rfl, rfl⟩ := h1
+                exact ⟨rfl, rfl, hc, hch, pc, hk, hnf, by simpa using hem, by simpa using hgo⟩
+            | inRead => rw [hpcm] at h1; cases h1
+            | readDone i => rw [hpcm] at hq; simp [quietMain] at hq
+            | stopped i => rw [hpcm] at hq; simp [quietMain] at hq
+            | locked i => rw [hpcm] at hq; simp [quietMain] at hq
+            | bumped i => rw [hpcm] at hq; simp [quietMain] at hq
+            | fin st v => rw [hpcm] at hq; simp [quietMain] at hq
+            | done => rw [hpcm] at hq; simp [quietMain] at hq
+          | cb j =>
+            simp only [FSys.step, cbStep] at h1
+            cases hj : f.cbs[j]? with
+            | none => rw [hj] at h1; cases h1
+            | some c =>
+              obtain ⟨gj, pcj⟩ := c
+              rw [hj] at h1
+              have hjlt : j < f.cbs.length := by
+                rcases Nat.lt_or_ge j f.cbs.length with h' | h'
+                · exact h'
+                · rw [List.getElem?_eq_none h'] at hj; cases hj
+              by_cases hjk : j = k
+              · -- the callback of the lone ESC itself
+                subst hjk
+                rw [hk] at hj; simp only [Option.some.injEq, Prod.mk.injEq] at hj; obtain ⟨rfl, rfl⟩ := hj
+                cases pc with
+                | started =>
+                  simp only at h1; split at h1
+                  · simp only [Option.some.injEq, Prod.mk.injEq] at h1; obtain ⟨rfl, rfl⟩ := h1
+                    exact ⟨rfl, hq, hc, hch, .locked, by simp [List.getElem?_set_self hjlt], by simp, by simp, by simp⟩
+                  · cases h1
+                | locked =>
+                  simp only [Option.some.injEq, Prod.mk.injEq] at h1; obtain ⟨rfl, rfl⟩ := h1
+                  exact ⟨rfl, hq, hc, hch, .passed, by simp [List.getElem?_set_self hjlt, hg], by simp, by simp, by simp⟩
+                | passed =>
+                  simp only [Option.some.injEq, Prod.mk.injEq] at h1; obtain ⟨rfl, rfl⟩ := h1
+                  exact ⟨rfl, hq, hc, hch, .emitted, by simp [List.getElem?_set_self hjlt], by simp, by simp [hch], by simp⟩
+                | emitted =>
+                  simp only [Option.some.injEq, Prod.mk.injEq] at h1; obtain ⟨rfl, rfl⟩ := h1
+                  exact ⟨rfl, hq, hc, hch, .stateSet, by simp [List.getElem?_set_self hjlt], by simp,
+                    fun _ => by simpa using hem (Or.inl rfl), by simp⟩
+                | stateSet =>
+                  simp only [Option.some.injEq, Prod.mk.injEq] at h1; obtain ⟨rfl, rfl⟩ := h1
+                  exact ⟨rfl, hq, hc, hch, .stSet, by simp [List.getElem?_set_self hjlt], by simp,
+                    fun _ => by simpa using hem (Or.inr (Or.inl rfl)), by simp⟩
+                | stSet =>
+                  simp only [Option.some.injEq, Prod.mk.injEq] at h1; obtain ⟨rfl, rfl⟩ := h1
+                  exact ⟨rfl, hq, hc, hch, .gone, by simp [List.getElem?_set_self hjlt], by simp, by simp,
+                    fun _ => by simpa using hem (Or.inr (Or.inr rfl))⟩
+                | failed => exact absurd rfl hnf
+                | gone => cases h1
+              · -- another callback: it touches neither the generation nor the entry of callback k
+                have hkeep : ∀ c, (f.cbs.set j c)[k]? = some (g, pc) := fun c => by
+                  rw [set_getElem?_ne _ _ _ _ hjk]; exact hk
+                cases pcj with
+                | started =>
+                  simp only at h1; split at h1
+                  · simp only [Option.some.injEq, Prod.mk.injEq] at h1; obtain ⟨rfl, rfl⟩ := h1
+                    exact ⟨rfl, hq, hc, hch, pc, hkeep _, hnf, by simpa using hem, by simpa using hgo⟩
+                  · cases h1
+                | gone => cases h1
+                | locked =>
+                  simp only [Option.some.injEq, Prod.mk.injEq] at h1; obtain ⟨rfl, rfl⟩ := h1
+                  exact ⟨rfl, hq, hc, hch, pc, hkeep _, hnf, by simpa using hem, by simpa using hgo⟩
+                | passed =>
+                  simp only [Option.some.injEq, Prod.mk.injEq] at h1; obtain ⟨rfl, rfl⟩ := h1
+                  exact ⟨rfl, hq, hc, hch, pc, hkeep _, hnf,
+                    fun h => by simp only [List.mem_append]; exact Or.inl (hem h),
+                    fun h => by simp only [List.mem_append]; exact Or.inl (hgo h)⟩
+                | emitted =>
+                  simp only [Option.some.injEq, Prod.mk.injEq] at h1; obtain ⟨rfl, rfl⟩ := h1
+                  exact ⟨rfl, hq, hc, hch, pc, hkeep _, hnf, by simpa using hem, by simpa using hgo⟩
+                | stateSet =>
+                  simp only [Option.some.injEq, Prod.mk.injEq] at h1; obtain ⟨rfl, rfl⟩ := h1
+                  exact ⟨rfl, hq, hc, hch, pc, hkeep _, hnf, by simpa using hem, by simpa using hgo⟩
+                | stSet =>
+                  simp only [Option.some.injEq, Prod.mk.injEq] at h1; obtain ⟨rfl, rfl⟩ := h1
+                  exact ⟨rfl, hq, hc, hch, pc, hkeep _, hnf, by simpa using hem, by simpa using hgo⟩
+                | failed =>
+                  simp only [Option.some.injEq, Prod.mk.injEq] at h1; obtain ⟨rfl, rfl⟩ := h1
+                  exact ⟨rfl, hq, hc, hch, pc, hkeep _, hnf, by simpa using hem, by simpa using hgo⟩
+        obtain ⟨he1, hq1, hc1, hch1, hrep1⟩ := hstep
+        have := ih f1 k g (acc ++ o1) f2 o2 hrep1 (by rw [he1]; exact hg) hq1 hc1 hch1 hl' h2
+        obtain ⟨he2, hq2, hrep2⟩ := this
+        exact ⟨by rw [he2, he1], hq2, by simpa [List.append_assoc] using hrep2⟩
+
+-- non-vacuity: after a lone ESC has been parsed and its timer has expired, the hypotheses hold (callback 0
+-- carries generation 1 = `escGen`, main in front of its `Unlock`, no `Close()`, channel open)
+example : (FSys.run handTable {} [.main, .readRet (.rune 0x1B), .main, .main, .main, .main, .expire]).map
+    (fun r => (r.1.cbs[0]?, r.1.escGen, quietMain r.1.mpc, r.1.closeReq, r.1.chanClosed)) =
+    some (some (1, .started), 1, true, false, false) := by decide +kernel
+
 end VaxisModel.Props.C08Sched
